@@ -76,6 +76,9 @@ Apply(st, o) ==
                 grp(g) == Copies(Rec(BigOf(8), BigOf(Digit(o.n, g - 1, 2))), 512)
                 all == FoldLeft(LAMBDA a, g : a \o grp(g), <<>>, [g \in 1..o.m |-> g])
             IN  upd(o.k, Res("OK", "ok", WithLast(i, [LastStream(i) EXCEPT !.recs = @ \o all])))
+      [] o.op = "encn" ->             \* append o.n Records (o.u, o.v), then encode -> decode (the decoded index is only observed)
+            LET i == reg[o.k]
+            IN  upd(o.k, Res("OK", "ok", WithLast(i, [LastStream(i) EXCEPT !.recs = @ \o Copies(Rec(o.u, o.v), o.n)])))
       [] o.op = "park" ->
             \* iterate-some / append-many / iterate-rest on the last Stream of slot o.k: append o.n Records (8, 1);
             \* attach the iterator and locate offset o.u, which lies in the t-th of them (o.v = t); append o.m more;
@@ -154,8 +157,13 @@ Step(st, o) ==
     LET a == Apply(st, o)
         live == {k \in a.touched : Live(a.st.reg[k])}
     IN  [o |-> o, ret |-> a.ret, why |-> a.why, info |-> a.info,
-         obs |-> SetToSeq({<<k, Observe(a.st.reg[k])>> : k \in live}),
-         enc |-> IF o.op = "encdec" THEN EncodedBody(st.reg[o.k]) ELSE <<>>]
+         \* encn: getters of the grown index (slot o.k) and of what the Index decoder must rebuild from its encoding
+         \* (pseudo slot 0) - for every way of cutting the encoded bytes into input chunks
+         obs |-> IF o.op = "encn"
+                 THEN <<(<<o.k, ObserveLite(a.st.reg[o.k])>>), (<<0, ObserveLite(DoEncDec(a.st.reg[o.k]).idx)>>)>>
+                 ELSE SetToSeq({<<k, Observe(a.st.reg[k])>> : k \in live}),
+         enc |-> IF o.op = "encdec" THEN EncodedBody(st.reg[o.k])
+                 ELSE IF o.op = "encn" THEN EncodedBody(a.st.reg[o.k]) ELSE <<>>]
 
 \* predictions for a whole history
 \* (the first line is the pseudo call "start": the observation of the initial empty index in slot 1)
